@@ -59,6 +59,19 @@ def gen(tier, seed):
                     lm = ("label", "last", off)
                     c = (cmd, ("mem", lm), 0x4242) if cmd == "move" else ((cmd, ("mem", lm)) if cmd == "print" else (cmd, lm))
                     specs.append(("overflow-label:" + cmd, 0, SRC[orig], [], [c] + tail))
+    # the PC itself outside user space (put there by `eval jmp`): ^offsets from it, zero offset included, must be
+    # refused exactly when PC + offset is outside [origin, xFE00)
+    for orig in (0x3000, 0x8000, 0xFD00, 0x0000):
+        outs = [0, 0x200, (orig - 1) & 0xFFFF, (orig - 2) & 0xFFFF, 0xFE00, 0xFE04, 0xFFFF, 0xFFFE, orig, orig + 3, orig + 4, 0xFDFF]
+        for x in sorted(set(outs)):
+            for off in (0, 1, -1, 2, -2, 0x100, -0x100):
+                for cmd in ("goto", "move", "breakadd", "breakremove", "print", "assembly"):
+                    m = ("pcoff", off)
+                    c = (cmd, ("mem", m), 0x4242) if cmd == "move" else ((cmd, ("mem", m)) if cmd == "print" else (cmd, m))
+                    if tier == "quick" and off not in (0, 1, -1) and cmd in ("print", "assembly"):
+                        continue
+                    specs.append(("pc-outside:" + cmd, 0, SRC[orig], [],
+                                  [("move", ("reg", 0), x), ("eval", "jmp r0"), c] + tail))
     # registers and values
     for r in range(8):
         for v in (0, 1, 0x7FFF, 0x8000, 0xFFFF, rnd.randrange(65536)):
@@ -83,7 +96,7 @@ def correspondence(ctx, violations, known_hits):
         "target addresses (quick: the boundary set {0, origin-1, origin, x7FFF, x8000, xFDFF, xFE00, xFFFF, ...} plus random; thorough: "
         "ALL 65,536 for origin x3000 and a stride for x8000) x spellings (absolute, label +- offset from two labels, ^offset from two "
         "PCs) x {goto, move, break add, break remove} at four origins; offsets at the signed-16-bit extremes from high PCs/labels "
-        "(sums beyond 16 bits); all eight registers x boundary values; inspection commands on arbitrary states; after each: "
+        "(sums beyond 16 bits); the PC itself parked outside user space (by `eval jmp`) x offsets {0, +-1, +-2, +-x100} x all six commands; all eight registers x boundary values; inspection commands on arbitrary states; after each: "
         "`registers; break list; exit` and a full comparison of machine (65,536 words) and breakpoint list", profiles,
         exhaustive=(ctx.tier != "quick"), exhaustive_over="all 65,536 goto/move targets at origin x3000 (thorough tier)")
 
